@@ -43,6 +43,21 @@ pub open spec fn reverse_gross_spec(ask: nat, fees: nat) -> nat {
 pub open spec fn reverse_offer_spec(x: nat, y: nat, ask: nat, fees: nat) -> nat {
     (((1 * (x * y)) / ((y - reverse_gross_spec(ask, fees) - 1) as nat)) - x) as nat
 }
+/// stableswap: the ask reserve the pool keeps after a swap, converted from the solver's (max) precision down by k decimals
+/// - exactly what compute_swap does with `Decimal256::decimal_with_precision(new_pool, k)?.to_uint_floor()`
+pub open spec fn ss_kept_reserve(y: nat, k: nat) -> nat { dec_from_atomics(y, k) / DEC }
+
+// @lemma ss_reserve_conversion_never_below_solver_value [C03]
+/// C03: rounding must favour the pool: scaled back to the solver's precision, the reserve the pool keeps must not be below the
+/// value y the invariant solver requires (otherwise the trader is paid the rounding remainder: up to 10^k - 1 solver units,
+/// i.e. one whole ask unit for an arbitrarily small offer). With the FLOOR conversion of the code this is false whenever y is
+/// not a multiple of 10^k: finding F9.
+pub proof fn lemma_ss_kept_reserve_covers_y(y: nat, k: nat)
+    requires 0 < k <= 18,
+    ensures ss_kept_reserve(y, k) * nat_pow(10, k) >= y,
+{
+}
+
 /// index of a denom in the pool's asset list (first match), or -1
 pub open spec fn asset_index(p: PoolInfo, denom: Seq<char>) -> int
 {
